@@ -14,9 +14,11 @@ pub fn live() -> usize { LEDGER.with(|l| l.borrow().live.len()) }
 pub fn anomalies() -> usize { LEDGER.with(|l| l.borrow().anomalies.len()) }
 
 #[derive(Debug)]
-pub struct Tok { id: u64, val: i64 }
+/// `tag` is a bool on purpose: Option<Tok> then keeps its None in the bool's niche, so an all-zero bit pattern is
+/// Some(Tok { id: 0, .. }) -- a value that was never created (catches zero-initialised buffers read as initialised)
+pub struct Tok { id: u64, val: i64, tag: bool }
 impl Tok {
-    pub fn new(val: i64) -> Tok { LEDGER.with(|l| { let mut l = l.borrow_mut(); l.next += 1; l.created += 1; let id = l.next; l.live.insert(id); Tok { id, val } }) }
+    pub fn new(val: i64) -> Tok { LEDGER.with(|l| { let mut l = l.borrow_mut(); l.next += 1; l.created += 1; let id = l.next; l.live.insert(id); Tok { id, val, tag: true } }) }
     fn touch(&self) -> i64 { LEDGER.with(|l| { let mut l = l.borrow_mut(); if !l.live.contains(&self.id) { let m = format!("use of non-live value #{}", self.id); l.anomalies.push(m); } }); self.val }
 }
 impl Clone for Tok { fn clone(&self) -> Tok { Tok::new(self.touch()) } }
